@@ -24,9 +24,9 @@ pub const DEF: PropDef = PropDef {
 
 fn jobs(plan: &Plan) -> Vec<Job> {
     let t = plan.tier;
-    let mut v = entry_jobs(plan, "C10", "reserve", t.pick(10, 400, 1), |_| true);
-    v.extend(entry_jobs(plan, "C10", "merge", t.pick(12, 500, 1), |_| true));
-    v.extend(stack_jobs(plan, "C10", "stack-presize", t.pick(4, 100, 0), |_| true));
+    let mut v = entry_jobs(plan, "C10", "reserve", t.pick(40, 400, 1), |_| true);
+    v.extend(entry_jobs(plan, "C10", "merge", t.pick(48, 500, 1), |_| true));
+    v.extend(stack_jobs(plan, "C10", "stack-presize", t.pick(12, 100, 0), |_| true));
     v
 }
 
